@@ -69,7 +69,11 @@ def run(spec):
         if fam:
             fam = str(fam).split(':')[0]
             col.count('family:' + (fam[:3] if fam.startswith('EXH') else fam.rstrip('0123456789')))
-        signal.setitimer(signal.ITIMER_VIRTUAL, cpu_limit)
+        # cases of the tiny-table families cost milliseconds: a tight CPU limit there still leaves a
+        # factor > 1 000; the big families legitimately take up to minutes and get the generous one
+        small = isinstance(fam, str) and (fam.startswith('EXH') or fam in ('RND', 'RNDs', 'STRUCT', 'NEAR', 'TGT', 'HOSTILE', 'valid', 'triple', 'dict', 'pair', 'random'))
+        limit = min(cpu_limit, 300.0) if small else cpu_limit
+        signal.setitimer(signal.ITIMER_VIRTUAL, limit)
         try:
             mod.run_case(concepts, case, spec)
         except core.CaseTooLarge:
@@ -80,7 +84,7 @@ def run(spec):
                 col.harness_error('cpu budget exceeded inside monitor code')
             else:
                 col.violation('watchdog', 'call-did-not-return',
-                              expected=f'monitored call returns within {cpu_limit:.0f} s CPU',
+                              expected=f'monitored call returns within {limit:.0f} s CPU',
                               observed='still running')
                 timeouts += 1
                 if timeouts >= 2:       # already violated: do not burn hours on a tree that does not return
